@@ -387,6 +387,16 @@ func (t *transpiler) charClass(node *ast.CharClassNode) {
 	var internalNodes []ast.CharClassElementNode
 	var nodesToSplit []ast.CharClassElementNode
 
+	if len(node.Elements) == 0 {
+		// Go reads a `]` right after `[` or `[^` as a literal,
+		// so `[]` would swallow the rest of the regex up to the next `]`
+		t.Errors.AddFailure(
+			"empty character class",
+			t.newLocation(node.Span()),
+		)
+		return
+	}
+
 	if node.Negated {
 		t.Mode = negatedCharClassMode
 	} else {
